@@ -27,7 +27,10 @@ def load(repo=None):
     from harness import core
     from harness.translate import transport as tr
     repo = repo or core.REPO
-    facts = tr.analyse(repo)
+    try:
+        facts = tr.analyse(repo)
+    except Exception:  # reshaped transport: statement-level points, critical sections = with bodies
+        facts = tr.analyse_generic(repo)
     import semantiva.execution.transport.in_memory as mod
     if os.path.realpath(mod.__file__) != os.path.realpath(facts["path"]):
         raise RuntimeError("imported %s but analysed %s (PYTHONPATH does not select the repo under test)"
@@ -181,10 +184,65 @@ def single_job(job):
     return res
 
 
+def sequential_job(job):
+    """Single-threaded operation sequences (no scheduler): early-closing consumers, re-publication,
+    later drains.  Direct oracle only: exactly-once and per-(publisher, channel) order."""
+    import semantiva.execution.transport.in_memory as mod
+    bad = []
+
+    def run(name, ops):
+        tr = mod.InMemorySemantivaTransport()
+        tr.connect()
+        got, k = [], 0
+        pubs = []
+        for op in ops:
+            if op[0] == "pub":
+                for _ in range(op[2]):
+                    tr.publish(op[1], [0, k, op[1]], {})
+                    pubs.append([0, k, op[1]])
+                    k += 1
+            elif op[0] == "take":          # consume at most n messages of a pattern, then close the subscription
+                sub = tr.subscribe(op[1])
+                n = 0
+                for m in sub:
+                    got.append(m.data)
+                    n += 1
+                    if n >= op[2]:
+                        break
+                sub.close()
+            elif op[0] == "drain":
+                for m in tr.subscribe(op[1]):
+                    got.append(m.data)
+        keys = [tuple(p) for p in got]
+        if len(set(keys)) != len(keys):
+            bad.append(("C14:duplicate-delivery", "%s: a message was delivered twice: %s" % (name, got)))
+        lost = [p for p in pubs if tuple(p) not in set(keys)]
+        if lost:
+            bad.append(("C14:lost-message:sequential", "%s: published %s never delivered" % (name, lost[:3])))
+        last = {}
+        for p in got:
+            if p[2] in last and last[p[2]] >= p[1]:
+                bad.append(("C14:order-violated", "%s: channel %s: #%d received after #%d (sequence %s)" % (name, p[2], p[1], last[p[2]], [x[1] for x in got])))
+                break
+            last[p[2]] = p[1]
+
+    run("early close then republish", [("pub", "c", 3), ("take", "c", 1), ("pub", "c", 1), ("drain", "c")])
+    run("early close, wildcard", [("pub", "a.x", 2), ("pub", "a.y", 2), ("take", "a.*", 1), ("pub", "a.x", 1), ("drain", "*")])
+    run("two early closes", [("pub", "c", 4), ("take", "c", 1), ("take", "c", 1), ("pub", "c", 2), ("drain", "c")])
+    run("take more than pending", [("pub", "c", 1), ("take", "c", 5), ("pub", "c", 2), ("take", "c", 1), ("drain", "*")])
+    run("exact subscription on a channel created later", [("take", "c", 1), ("pub", "c", 2), ("drain", "c")])
+    return {"oracle": bad, "file": mod.__file__}
+
+
 def main():
     job = json.load(sys.stdin)
     import logging
     logging.disable(logging.CRITICAL)
+    if job.get("sequential"):
+        out = sequential_job(job)
+        sys.stdout.write(json.dumps(out))
+        sys.stdout.flush()
+        os._exit(0)
     out = single_job(job) if "schedule" in job else enumerate_job(job)
     sys.stdout.write(json.dumps(out))
     sys.stdout.flush()
